@@ -204,7 +204,7 @@ impl<'a> Scanner<'a> {
                             } else if !self.peek('*') && !self.peek('/') {
                                 self.advance();
                             }
-                            if level == 0 {
+                            if level == 0 || self.is_empty() {
                                 break;
                             }
                         }
